@@ -354,6 +354,35 @@ CMD_ALLOW: Dict[str, str] = {
 }
 
 
+def _tuple_arity(fn: ast.AST, name: str, repo: Optional[Repo] = None, rel: str = '') -> Optional[Tuple[int, bool]]:
+    """(arity, optional?) when `name` is a parameter of fn annotated Tuple[T1, .., Tn] / Optional[Tuple[..]] (no ellipsis) and never re-bound"""
+    if not isinstance(fn, (ast.FunctionDef, ast.AsyncFunctionDef)):
+        return None
+    a = next((x for x in fn.args.args + fn.args.kwonlyargs if x.arg == name), None)
+    if a is None or a.annotation is None:
+        return None
+    # re-bound only by unpacking the result of a module function whose annotated result has, at that position, the very same type
+    for st in ast.walk(fn):
+        for t in (st.targets if isinstance(st, ast.Assign) else [st.target] if isinstance(st, (ast.AugAssign, ast.AnnAssign, ast.For)) else []):
+            for k, x in enumerate(t.elts if isinstance(t, ast.Tuple) else [t]):
+                if isinstance(x, ast.Name) and x.id == name:
+                    ok = False
+                    if isinstance(st, ast.Assign) and isinstance(t, ast.Tuple) and isinstance(st.value, ast.Call) and repo is not None \
+                            and repo.has_func(rel, dotted(st.value.func)):
+                        r_ = repo.func(rel, dotted(st.value.func)).returns
+                        if isinstance(r_, ast.Subscript) and isinstance(r_.slice, ast.Tuple) and k < len(r_.slice.elts) and norm(r_.slice.elts[k]) == norm(a.annotation):
+                            ok = True
+                    if not ok:
+                        return None
+    ann, opt = a.annotation, False
+    if isinstance(ann, ast.Subscript) and norm(ann.value).split('.')[-1] == 'Optional':
+        ann, opt = ann.slice, True
+    if isinstance(ann, ast.Subscript) and norm(ann.value).split('.')[-1] in ('Tuple', 'tuple') and isinstance(ann.slice, ast.Tuple) \
+            and not any(isinstance(e, ast.Constant) and e.value is Ellipsis for e in ann.slice.elts):
+        return len(ann.slice.elts), opt
+    return None
+
+
 def _is_sequence(fn: ast.AST, e: ast.expr) -> bool:
     """e is provably a list / str / tuple (truthiness = non-empty): a slice, a literal, `.split(..)`, list(..) / tuple(..) / sorted(..), or
     a local whose every binding is one of these"""
@@ -368,6 +397,106 @@ def _is_sequence(fn: ast.AST, e: ast.expr) -> bool:
         stores = sum(1 for x in ast.walk(fn) if isinstance(x, ast.Name) and x.id == e.id and isinstance(x.ctx, ast.Store))
         return bool(defs) and stores == len(defs) and all(_is_sequence(fn, d) for d in defs)
     return False
+
+
+_LABEL_CHARS = set(map(ord, 'abcdefghijklmnopqrstuvwxyzABCDEFGHIJKLMNOPQRSTUVWXYZ0123456789_.:-'))
+
+
+def rule_read_target(rep: Report, repo: Repo) -> None:
+    """reads report the true value of the ADDRESSED variable: the typed target must reach the resolver whole, and the words read must exist"""
+    rep.rule('C15.READ-TARGET', 'the read command hands the resolver the WHOLE target the user typed: the pattern that splits the `:type:index:` '
+             'prefix off is matched against the entire string (fullmatch / end anchor), and its target group admits every character a full '
+             'label name can contain (a macro-local label is `f1:l7:macro---name`) - read off the syntax tree of the pattern; and the words a '
+             'read touches end inside the memory: after the typed index / length / op offset are applied, a report-and-return test that '
+             'fires for an arbitrarily large index dominates the memory reads', 2)
+    import re._parser as _rp          # type: ignore[import-not-found]
+    hr = repo.func(BRK, 'BreakpointHandler.handle_read_memory')
+    pats = [c for c in calls(hr) if dotted(c.func) in ('re.match', 're.fullmatch', 're.search') and c.args and isinstance(c.args[0], ast.Constant)
+            and isinstance(c.args[0].value, str)]
+    if len(pats) != 1:
+        raise AnalysisError(f'C15.READ-TARGET: {len(pats)} pattern matches with a literal pattern in handle_read_memory (one expected)')
+    pat = pats[0].args[0].value
+    tree = list(_rp.parse(pat))
+    anchored = dotted(pats[0].func) == 're.fullmatch' or (tree and str(tree[-1][0]) == 'AT' and 'END' in str(tree[-1][1]))
+    groups = [t for t in tree if str(t[0]) == 'SUBPATTERN']
+
+    def charset(items: Any) -> Set[int]:
+        out: Set[int] = set()
+        for op, av in items:
+            nm = str(op)
+            if nm in ('MAX_REPEAT', 'MIN_REPEAT'):
+                out |= charset(av[2])
+            elif nm == 'ANY':
+                out |= set(range(256)) - {10}
+            elif nm == 'LITERAL':
+                out.add(av)
+            elif nm == 'NOT_LITERAL':
+                out |= set(range(256)) - {av}
+            elif nm == 'IN':
+                cs: Set[int] = set()
+                neg = False
+                for o2, a2 in av:
+                    if str(o2) == 'NEGATE':
+                        neg = True
+                    elif str(o2) == 'LITERAL':
+                        cs.add(a2)
+                    elif str(o2) == 'RANGE':
+                        cs |= set(range(a2[0], a2[1] + 1))
+                    elif str(o2) == 'CATEGORY' and 'WORD' in str(a2) and 'NOT' not in str(a2):
+                        cs |= {c_ for c_ in _LABEL_CHARS if chr(c_).isalnum() or c_ == 95}
+                    elif str(o2) == 'CATEGORY' and 'DIGIT' in str(a2) and 'NOT' not in str(a2):
+                        cs |= set(range(48, 58))
+                out |= (set(range(256)) - cs) if neg else cs
+            elif nm == 'SUBPATTERN':
+                out |= charset(av[3])
+            elif nm == 'BRANCH':
+                for alt in av[1]:
+                    out |= charset(alt)
+        return out
+    missing = sorted(chr(c_) for c_ in _LABEL_CHARS - charset(groups[-1][1][3])) if groups else ['<no group>']
+    rep.check(bool(anchored) and not missing, 'C15.READ-TARGET', 'target pattern', f'`{pat}`: whole string={bool(anchored)}; label characters the target group '
+              f'refuses: {missing}', f'{BRK}:{pats[0].lineno} handle_read_memory', expected='fullmatch, target group = the rest of the string')
+    # the range: in show_memory_address, after the f/j adjustment, a report-and-return refusal that fires for a huge index / address
+    sm = repo.func(BRK, 'show_memory_address')
+    reads = [c for c in ast.walk(sm) if isinstance(c, ast.Call) and dotted(c.func) in ('mem.get_word', 'calculate_variable_value')]
+    if not reads:
+        raise AnalysisError('C15.READ-TARGET: show_memory_address reads nothing (mem.get_word / calculate_variable_value expected)')
+    adj = [n for n in ast.walk(sm) if isinstance(n, ast.Assign) and isinstance(n.value, ast.Call) and dotted(n.value.func) == 'handle_read_f_j']
+    adj_line = adj[0].lineno if adj else 0
+    from ..pyfacts import resolve_names as _rn
+    refusals = [i for i in ast.walk(sm) if isinstance(i, ast.If) and i.body and isinstance(i.body[-1], ast.Return)
+                and any(isinstance(c, ast.Call) and dotted(c.func) == 'show_message' for b in i.body for c in ast.walk(b))
+                and i.lineno > adj_line and i.lineno < min(r.lineno for r in reads) and not any(r is x for r in reads for x in ast.walk(i))]
+    BIG = 1 << 200
+
+    def fires(test: ast.expr, prefix: Optional[Tuple[int, int]], address: int) -> bool:
+        class S(ast.NodeTransformer):
+            def visit_Subscript(self, node: ast.Subscript) -> ast.AST:
+                if norm(node.value) == 'variable_prefix' and isinstance(node.slice, ast.Constant) and prefix is not None and node.slice.value in (1, 2):
+                    return ast.Constant(value=prefix[node.slice.value - 1])
+                return self.generic_visit(node)
+
+            def visit_Compare(self, node: ast.Compare) -> ast.AST:
+                if norm(node.left) == 'variable_prefix' and len(node.ops) == 1 and isinstance(node.comparators[0], ast.Constant) and node.comparators[0].value is None:
+                    return ast.Constant(value=int((prefix is None) == isinstance(node.ops[0], ast.Is)))
+                return self.generic_visit(node)
+
+            def visit_Name(self, node: ast.Name) -> ast.AST:
+                if node.id == 'variable_prefix' and isinstance(node.ctx, ast.Load):
+                    return ast.Constant(value=int(prefix is not None))
+                return node
+        t2 = ast.fix_missing_locations(S().visit(clone(_rn(sm, test))))
+        try:
+            return bool(eval_int_expr(t2, {'w': 64, 'mem.memory_width': 64, 'address': address}))
+        except (AnalysisError, ArithmeticError, ValueError):
+            return False
+    cases = {'a huge index of a variable': ((1, BIG), 0), 'a huge length of a variable': ((BIG, 0), 0), 'an f/j offset beyond the memory': (None, BIG),
+             'the last word plus a one-cell variable': ((1, 0), (1 << 64) - 64)}
+    uncovered = [nm for nm, (pf, ad) in cases.items() if not any(fires(i.test, pf, ad) for i in refusals)]
+    quiet = [nm for nm, (pf, ad) in {'an ordinary variable': ((4, 2), 1024), 'an ordinary word': (None, 1024)}.items() if any(fires(i.test, pf, ad) for i in refusals)]
+    rep.check(not uncovered and not quiet, 'C15.READ-TARGET', 'read range', f'{len(refusals)} report-and-return tests between the f/j adjustment and the reads; '
+              f'not refused: {uncovered}; wrongly refused: {quiet}', f'{BRK}:{sm.lineno} show_memory_address',
+              expected='a read that ends beyond 2^w is reported and skipped; ordinary reads go through')
 
 
 def rule_cmd_escape(rep: Report, repo: Repo) -> None:
@@ -424,6 +553,10 @@ def rule_cmd_escape(rep: Report, repo: Repo) -> None:
                     proof = f'GUARD: len({base}) > {node.slice.value} holds here'           # type: ignore[attr-defined]
                 elif isinstance(node.slice, ast.Constant) and node.slice.value == 0 and gd.get(base) is True and _is_sequence(fn, node.value):   # type: ignore[attr-defined]
                     proof = f'GUARD: the sequence {base} is non-empty here (its truth is tested)'
+                elif isinstance(node.slice, ast.Constant) and isinstance(node.slice.value, int) and isinstance(node.value, ast.Name) and _tuple_arity(fn, node.value.id, repo, rel) is not None:   # type: ignore[attr-defined]
+                    ar_, opt_ = _tuple_arity(fn, node.value.id, repo, rel)          # type: ignore[attr-defined, misc]
+                    if 0 <= node.slice.value < ar_ and (not opt_ or gd.get(f'{base} is not None') is True or gd.get(f'{base} is None') is False or gd.get(base) is True):   # type: ignore[attr-defined]
+                        proof = f'TYPE: {base} is annotated as a {ar_}-tuple' + (' and is known not to be None here' if opt_ else '')
                 else:
                     # `for k in D` / `for k in tuple(D)[::-1]`: k is a key of D
                     for a in [x for x in __import__('fjverif.pyfacts', fromlist=['ancestors']).ancestors(node) if isinstance(x, ast.For)]:
@@ -508,6 +641,7 @@ def check(rep: Report, repo: Optional[Repo] = None) -> None:
     rule_readonly(rep, repo)
     rule_decode(rep, repo)
     rule_cmd_escape(rep, repo)
+    rule_read_target(rep, repo)
     rep.not_decided.append('equality of output/termination/op count with the undebugged run for all programs and command scripts')
 
 
